@@ -129,6 +129,8 @@ func c08Batch(r *rig.SignerRig, kind string, n int, real bool, viaHandler bool) 
 	}
 	var ress []core.Result
 	var sigs [][]byte
+	singleAtt := make([]*rules.SignBeaconAttestationData, n)
+	singleGen := make([]*rules.SignData, n)
 	switch kind {
 	case "atts":
 		data := make([]*rules.SignBeaconAttestationData, n)
@@ -138,6 +140,7 @@ func c08Batch(r *rig.SignerRig, kind string, n int, real bool, viaHandler bool) 
 			d := &rules.SignBeaconAttestationData{Domain: dom, Slot: uint64(1000 + i), CommitteeIndex: uint64(i), BeaconBlockRoot: c08Root(byte(1 + i%200)),
 				Source: &rules.Checkpoint{Epoch: uint64(i % 5), Root: c08Root(byte(i % 7))}, Target: &rules.Checkpoint{Epoch: uint64(10 + i), Root: c08Root(0xff)}}
 			data[i] = d
+			singleAtt[i] = d
 			items[i] = c08Item{acct: accts[i], what: fmt.Sprintf("attestation batch n=%d entry %d", n, i),
 				root: model.SigningRoot(model.AttestationDataRoot(d.Slot, d.CommitteeIndex, d.BeaconBlockRoot, d.Source.Epoch, d.Source.Root, d.Target.Epoch, d.Target.Root), dom)}
 			req.Requests = append(req.Requests, mkAttReq(names[i], keys[i], dom, &pb.AttestationData{Slot: d.Slot, CommitteeIndex: d.CommitteeIndex, BeaconBlockRoot: d.BeaconBlockRoot,
@@ -165,6 +168,7 @@ func c08Batch(r *rig.SignerRig, kind string, n int, real bool, viaHandler bool) 
 			d := &rules.SignData{Domain: dom, Data: c08Root(byte(1 + i%250))}
 			d.Data[31] = byte(i >> 8)
 			data[i] = d
+			singleGen[i] = d
 			items[i] = c08Item{acct: accts[i], what: fmt.Sprintf("multisign n=%d entry %d", n, i), root: model.SigningRoot(b32x(d.Data), dom)}
 			req.Requests = append(req.Requests, mkSignReq(names[i], keys[i], d.Data, dom))
 		}
@@ -186,6 +190,25 @@ func c08Batch(r *rig.SignerRig, kind string, n int, real bool, viaHandler bool) 
 	}
 	for i := range items {
 		items[i].res, items[i].sig = ress[i], sigs[i]
+	}
+	// "Entry i is the verdict for request i": the same request submitted alone for an account in the same (fresh) state
+	// must get the same verdict (signed / not signed). Symbolic-key batches only (cheap).
+	if !real {
+		for i := range items {
+			alone := r.AddSymAccount("Wallet 1", "", "pass", true)
+			var signedAlone bool
+			switch kind {
+			case "atts":
+				_, sig := r.Signer.SignBeaconAttestation(r.Ctx, creds, "Wallet 1/"+alone.Name(), nil, singleAtt[i])
+				signedAlone = len(sig) > 0
+			case "multisign":
+				_, sig := r.Signer.SignGeneric(r.Ctx, creds, "Wallet 1/"+alone.Name(), nil, singleGen[i])
+				signedAlone = len(sig) > 0
+			}
+			if signedAlone != (len(items[i].sig) > 0) {
+				return items, fmt.Sprintf("%s n=%d: entry %d is signed=%v in the batch but signed=%v when the same request is submitted alone", kind, n, i, len(items[i].sig) > 0, signedAlone), nil
+			}
+		}
 	}
 	return items, "", nil
 }
